@@ -4,9 +4,16 @@ import BreezyVerif.Model.C52
 Line protocol of C52:
 
   chain <force T|F> <targets b,t,c,l,s,u comma list> <tree T|F> <dirty T|F> <branch u|b|r> <repo n|o|s>
-        <sharedAbove T|F> <bindKnown T|F> <synced T|F>
-    -> per step `<ok|E:kind>:<tree><dirty><branch><repo><bindKnown>:<treestate none|kept|clean>` joined by a space
-  convert <from> <to>  -> `uptodate` | `ok <format>`
+        <sharedAbove T|F> <bindKnown T|F> <synced T|F> <local tags n:v,…|-> <tags at the bind location n:v,…|->
+    -> per step `<ok|E:kind>:<tree><dirty><branch><repo><bindKnown>:<treestate none|kept|clean>:<tip o|m>:<tags>`
+       joined by a space; tip `o` = the tip at the start, `m` = the tip of the branch at the bind location;
+       tags = the value of tag name 0, 1, … k-1 (`-` = not set), joined by `,` (`-` when k = 0), k = number of
+       names mentioned in the request
+  upgrade <repo class|~> <branch format|~> <tree format|~> <target repo> <target branch> <target tree>
+          <mainline length> <number of pending merges>
+    -> `<ok|E:UpToDate|E:BadConversionTarget> <repo|~> <branch|~> <tree|~> <passes> <revno.tip|~> <tree parents|~> <obs same T|F>`
+       passes = converter names joined by `+` per pass (`0` for a pass without converter), passes joined by `/`,
+       `-` for no pass
 -/
 namespace BreezyVerif.C52
 
@@ -36,6 +43,14 @@ def showErr : Option Err → String
   | some .noBindLocation => "E:NoBindLocation"
   | some .noSharedRepository => "E:NoSharedRepository"
 
+def parseTags (s : String) : Option Tags :=
+  (splitList s).mapM fun p =>
+    match p.splitOn ":" with
+    | [a, b] => match a.toNat?, b.toNat? with
+      | some a, some b => some (a, b)
+      | _, _ => none
+    | _ => none
+
 /-- the tree state relative to the start of the chain: code 0 = the original tree content -/
 def showTreeState (l : Loc) : String :=
   if !l.tree then "none" else if l.treeCode == 0 then "kept" else "clean"
@@ -43,27 +58,56 @@ def showTreeState (l : Loc) : String :=
 def showLoc (l : Loc) : String :=
   s!"{showBool l.tree}{showBool l.dirty}{showBK l.branch}{showRK l.repo}{showBool l.bindKnown}"
 
-def steps (force : Bool) : List Target → Loc → List String
+def showTags (k : Nat) (ts : Tags) : String :=
+  joinList ((List.range k).map fun n => match lookupTag ts n with | some v => toString v | none => "-")
+
+def steps (force : Bool) (k : Nat) : List Target → Loc → List String
   | [], _ => []
   | t :: ts, l =>
     let r := reconfigure t force l
-    s!"{showErr r.2}:{showLoc r.1}:{showTreeState r.1}" :: steps force ts r.1
+    let tip := if r.1.tip == 1 then "o" else "m"
+    s!"{showErr r.2}:{showLoc r.1}:{showTreeState r.1}:{tip}:{showTags k r.1.tags}" :: steps force k ts r.1
+
+def showStep : Step → String
+  | .repoCopy => "repo" | .b5to6 => "b5to6" | .b6to7 => "b6to7" | .b7to8 => "b7to8"
+  | .t3to4 => "t3to4" | .t4to5 => "t4to5" | .t4or5to6 => "t4or5to6"
+
+def showUErr : Option UErr → String
+  | none => "ok" | some .upToDate => "E:UpToDate" | some .badConversionTarget => "E:BadConversionTarget"
+
+def showPasses (ps : List (List Step)) : String :=
+  if ps.isEmpty then "-" else "/".intercalate (ps.map fun p => if p.isEmpty then "0" else "+".intercalate (p.map showStep))
 
 def handle : List String → String
-  | ["chain", force, ts, tree, dirty, br, repo, above, known, synced] =>
+  | ["chain", force, ts, tree, dirty, br, repo, above, known, synced, ltags, rtags] =>
     match parseBool force, (splitList ts).mapM parseTarget, parseBool tree, parseBool dirty, parseBK br, parseRK repo,
-          parseBool above, parseBool known, parseBool synced with
-    | some force, some ts, some tree, some dirty, some br, some repo, some above, some known, some synced =>
-      let l : Loc := ⟨tree, dirty, br, repo, above, known, synced, 0, 1, 0, 0, 0⟩
-      " ".intercalate (steps force ts l)
-    | _, _, _, _, _, _, _, _, _ => "bad-op"
-  | ["convert", a, b] =>
-    match a.toNat?, b.toNat? with
-    | some a, some b =>
-      match convert b ⟨true, false, .unbound, .own, false, false, true, a, 1, 0, 0, 0⟩ with
-      | none => "uptodate"
-      | some l => s!"ok {l.format}"
-    | _, _ => "bad-op"
+          parseBool above, parseBool known, parseBool synced, parseTags ltags, parseTags rtags with
+    | some force, some ts, some tree, some dirty, some br, some repo, some above, some known, some synced,
+      some ltags, some rtags =>
+      let l : Loc := { tree := tree, dirty := dirty, branch := br, repo := repo, sharedAbove := above, bindKnown := known,
+                       format := 0, tip := 1, hist := 1, tags := ltags, treeCode := 0,
+                       refTip := if synced then 1 else 2, refHist := if synced then 1 else 2, refTags := rtags }
+      let k := ((ltags ++ rtags).map (·.1 + 1)).foldl max 0
+      " ".intercalate (steps force k ts l)
+    | _, _, _, _, _, _, _, _, _, _, _ => "bad-op"
+  | ["upgrade", r, b, t, tr, tb, tt, n, pm] =>
+    match optNat r, optNat b, optNat t, tr.toNat?, tb.toNat?, tt.toNat?, n.toNat?, pm.toNat? with
+    | some r, some b, some t, some tr, some tb, some tt, some n, some pm =>
+      let hist := (List.range n).map (· + 1)
+      let br : Option UBranch := b.map fun f =>
+        { fmt := f, revHistory := if f == 5 then hist else [], lastRev := if f == 5 then (0, 0) else (n, n),
+          parent := some 1, bound := none, push := some 2, tags := if f == 5 then [] else [(0, 1)] }
+      let pend := (List.range pm).map (· + 100)
+      let tree : Option UTree := t.map fun f =>
+        { fmt := f, lastRevision := if f == 3 then n else 0, pendingMerges := if f == 3 then pend else [],
+          dsParents := if f == 3 then [] else (if n == 0 then [] else [n]) ++ pend, inv := 7 }
+      let u : ULoc := { repo := r, revs := 9, branch := br, tree := tree }
+      let res := upgrade ⟨tr, tb, tt⟩ u
+      let u' := res.1
+      let info := match u'.branch with | some b => s!"{b.info.1}.{b.info.2}" | none => "~"
+      let par := match u'.tree with | some t => joinList (t.parents.map toString) | none => "~"
+      s!"{showUErr res.2.2} {showOptNat u'.repo} {showOptNat (u'.branch.map (·.fmt))} {showOptNat (u'.tree.map (·.fmt))} {showPasses res.2.1} {info} {par} {showBool (uobs u' == uobs u)}"
+    | _, _, _, _, _, _, _, _ => "bad-op"
   | _ => "bad-op"
 
 end BreezyVerif.C52
